@@ -51,6 +51,8 @@ type Hooks struct {
 	Client func(c *http.Client) *http.Client
 	// Clock is called before the code under test reads the clock.
 	Clock func()
+	// LogWrite is called before a logger of the code under test writes n bytes to its output.
+	LogWrite func(n int)
 }
 
 // H is the attached simulator, nil when idle.
@@ -392,3 +394,16 @@ func Now() time.Time {
 func Since(t time.Time) time.Duration { return Now().Sub(t) }
 
 func Until(t time.Time) time.Duration { return t.Sub(Now()) }
+
+// LogWriter wraps the output of a logger the code under test creates: the
+// simulated log device (slow, stuck) is consulted before every write.
+func LogWriter(w io.Writer) io.Writer { return &logWriter{w} }
+
+type logWriter struct{ w io.Writer }
+
+func (l *logWriter) Write(p []byte) (int, error) {
+	if h := H; h != nil && h.LogWrite != nil {
+		h.LogWrite(len(p))
+	}
+	return l.w.Write(p)
+}
